@@ -95,12 +95,13 @@ def MarkersOK (L : Lat) : Prop :=
   ∀ v, v < L.n → (L.node v).real = false → v = L.start ∨ v = L.final
 
 /-- a word node starts before its first end frame, which is not after its last one, inside the
-utterance; `<s>` sits at frame 0, `</s>` at frame `nframes` -/
+utterance; `<s>` sits at frame 0, `</s>` at frame `nframes`, both with `fef = lef = sf` -/
 def NodeTimesOK (L : Lat) : Prop :=
   ∀ v, v < L.n →
     ((L.node v).real = true →
       (L.node v).sf ≤ (L.node v).fef ∧ (L.node v).fef ≤ (L.node v).lef ∧ (L.node v).lef < L.nframes) ∧
-    ((L.node v).real = false → (v = L.start → (L.node v).sf = 0) ∧ (v ≠ L.start → (L.node v).sf = L.nframes))
+    ((L.node v).real = false → (v = L.start → (L.node v).sf = 0) ∧ (v ≠ L.start → (L.node v).sf = L.nframes) ∧
+      (L.node v).fef = (L.node v).sf ∧ (L.node v).lef = (L.node v).sf)
 
 /-- time consistency of one link.  Between word nodes: the link's end frame `t` is one of the end
 frames of the source word instance (`sf ≤ t`, `fef ≤ t ≤ lef`) and the target starts at `t + 1`.
